@@ -12,3 +12,22 @@ def check (o e : Nat × Nat × Nat) : Verdict :=
   else .current
 
 end HapVersion
+
+namespace HapVersion
+
+/-- one component: a non-empty run of ASCII digits (what the format's version strings consist of); anything else is outside
+    the model -/
+def component (s : String) : Option Nat :=
+  if s.isEmpty ∨ ¬ s.all Char.isDigit then none else s.toNat?
+
+/-- `map(int, version.split("."))` unpacked into exactly three components -/
+def parse (s : String) : Option (Nat × Nat × Nat) :=
+  match s.splitOn "." with
+  | [a, b, c] => do pure (← component a, ← component b, ← component c)
+  | _ => none
+
+/-- the verdict on a version string as found in a file, against the version string of the reader -/
+def checkStr (o e : String) : Option Verdict := do
+  pure (check (← parse o) (← parse e))
+
+end HapVersion
